@@ -8,7 +8,7 @@ from __future__ import annotations
 
 import ast
 
-from py2lean import Unsupported, find_func, span_sha, translate_block
+from py2lean import Unsupported, find_func, span_sha, strip_doc, translate_block
 from targets import assigns_to, find_if, ret_tuple
 
 
@@ -254,11 +254,36 @@ def _return_inlined(fn, what):
     return _inline(fn, r[0].value)
 
 
+_AUG = {ast.Div: '/', ast.Mult: '*', ast.Add: '+', ast.Sub: '-', ast.FloorDiv: '//', ast.Mod: '%', ast.Pow: '**',
+        ast.MatMult: '@'}
+
+
+def _inplace_inlined(fn, what):
+    """Every in-place statement of the function (`x /= e`, `x[...] = e`, `del`, ...) with locals inlined, sorted: what happens
+    to a value between its single assignment and the return is part of the pinned text.  Anything that is not a plain
+    assignment, a docstring, a return or an augmented assignment of a local makes the pin refuse."""
+    env = _simple_assigns(fn)
+    out = []
+    for st in strip_doc(fn.body):
+        if isinstance(st, (ast.Return,)):
+            continue
+        if isinstance(st, ast.Assign) and len(st.targets) == 1 and isinstance(st.targets[0], ast.Name):
+            continue
+        if isinstance(st, ast.AugAssign) and isinstance(st.target, ast.Name) and type(st.op) in _AUG:
+            tgt = _inline(fn, ast.Name(id=st.target.id, ctx=ast.Load())) if st.target.id in env else st.target.id
+            out.append(f'{tgt} {_AUG[type(st.op)]}= {_inline(fn, st.value)}')
+            continue
+        raise Unsupported(f'{what}: statement outside the pinned fragment: {ast.unparse(st)[:80]}')
+    return ' ; '.join(sorted(out))
+
+
 def build_wire_volume(tree):
     """volume.py: which affine columns become orientation / spacings / positions, and how attributes become an affine"""
     rows = []
     for prop in ('direction_cosines', 'pixel_spacing', 'spacing_between_slices'):
-        rows.append((prop, _return_inlined(find_func(tree, '_VolumeBase.' + prop), prop)))
+        f = find_func(tree, '_VolumeBase.' + prop)
+        rows.append((prop, _return_inlined(f, prop)))
+        rows.append((prop + '.inplace', _inplace_inlined(f, prop)))
     f = find_func(tree, '_VolumeBase.get_plane_positions')
     calls = [n for n in ast.walk(f) if isinstance(n, ast.Call) and ast.unparse(n.func) == 'self.map_indices_to_reference']
     if len(calls) != 1:
@@ -394,3 +419,37 @@ def build_wire_seg(tree):
 
 
 TARGETS['TC03wireS'] = {'file': 'seg/sop.py', 'build': build_wire_seg}
+
+
+def build_single(tree):
+    """image.py `_get_volume_geometry`, single-frame branch: how the recorded SpacingBetweenSlices becomes the slice spacing"""
+    fn = find_func(tree, '_Image._get_volume_geometry')
+    outer = [n for n in fn.body if isinstance(n, ast.If) and 'is_multiframe_image' in ast.unparse(n.test)]
+    if len(outer) != 1 or not outer[0].orelse:
+        raise Unsupported('single-frame branch of _get_volume_geometry not found')
+    inner = [n for n in outer[0].orelse if isinstance(n, ast.If)]
+    if len(inner) != 1:
+        raise Unsupported('single-frame branch: one guarded block expected')
+    stmts = []
+    for st in inner[0].body:
+        txt = ast.unparse(st)
+        if isinstance(st, ast.Assign) and ast.unparse(st.targets[0]) == 'spacing_between_slices':
+            stmts.append(st)
+        elif isinstance(st, ast.If) and 'spacing_between_slices' in txt:
+            stmts.append(st)
+    call = [n for n in ast.walk(inner[0]) if isinstance(n, ast.Call) and ast.unparse(n.func) == 'VolumeGeometry.from_attributes']
+    if len(call) != 1:
+        raise Unsupported('single-frame branch: from_attributes call not found')
+    kw = {k.arg: k.value for k in call[0].keywords}
+    if 'spacing_between_slices' not in kw:
+        raise Unsupported('single-frame branch: spacing_between_slices not passed')
+    block = [ast.parse(ast.unparse(s)).body[0] for s in stmts] + [ast.Return(value=kw['spacing_between_slices'])]
+    for s in block:
+        ast.fix_missing_locations(s)
+    text = translate_block(block, 'singleFrameSpacing', [], {"self.get('SpacingBetweenSlices', 1.0)": ('rat', 'sbsOrDefault')},
+                           doc='`_get_volume_geometry`, single-frame branch: slice spacing handed to from_attributes, from '
+                               "`self.get('SpacingBetweenSlices', 1.0)`")
+    return text, span_sha(stmts) + hashlib.sha256(ast.unparse(kw['spacing_between_slices']).encode()).hexdigest()[:8]
+
+
+TARGETS['TC03single'] = {'file': 'image.py', 'build': build_single}
